@@ -1,15 +1,21 @@
 """tools_mkmutant.py <name> <relpath> <old> <new> [<relpath> <old> <new> ...]
-Writes mutants/<name>.patch (unified diff against /repo's working tree)."""
+Writes mutants/<name>.patch (unified diff against /repo's working tree).
+Several triples may name the same file; they are applied in order."""
 import difflib, sys
 name = sys.argv[1]
 args = sys.argv[2:]
-out = []
+assert len(args) % 3 == 0, len(args)
+files = {}
 for i in range(0, len(args), 3):
     rel, old, new = args[i:i+3]
     old = old.encode().decode("unicode_escape"); new = new.encode().decode("unicode_escape")
-    src = open(f"/repo/{rel}").read()
-    assert src.count(old) == 1, (rel, src.count(old), old)
-    dst = src.replace(old, new)
+    if rel not in files:
+        src = open(f"/repo/{rel}").read()
+        files[rel] = [src, src]
+    assert files[rel][1].count(old) == 1, (rel, files[rel][1].count(old), old)
+    files[rel][1] = files[rel][1].replace(old, new)
+out = []
+for rel, (src, dst) in files.items():
     out.extend(difflib.unified_diff(src.splitlines(True), dst.splitlines(True), f"a/{rel}", f"b/{rel}"))
 open(f"/verif/mutants/{name}.patch", "w").write("".join(out))
 print("".join(out))
